@@ -16,7 +16,7 @@ import re
 ID = "C18"
 LEVEL = "exploration"
 IN_PROCESS = False
-CHUNK_TIMEOUT = 1500
+CHUNK_TIMEOUT = 3000
 RULE = (
     "cases = (SUT of vlib/sut_corpus incl. the never-raising float module, seed, algorithm DYNAMOSA/MIO/WHOLE_SUITE/RANDOM/MOSA, "
     "assertion generation NONE/SIMPLE/MUTATION_ANALYSIS, no_xfail on/off, format_with_black on/off, post_process on/off, "
